@@ -159,7 +159,7 @@ static std::string obs_full(Position& p)
     return o;
 }
 
-static std::string op_walk_gen(std::istringstream& is, Observer obs)
+static std::string op_walk_gen(std::istringstream& is, Observer obs, bool only_after_do = false)
 {
     GameCase g = parse_game(is);
     Position p(g.fen);
@@ -173,6 +173,7 @@ static std::string op_walk_gen(std::istringstream& is, Observer obs)
             auto [m, mi] = st.back();
             st.pop_back();
             if (t == "u") p.undo_move(m, mi); else p.undo_null_move(mi);
+            if (only_after_do) { out += " ; -"; continue; }       // the way a search asks: never at the parent between two siblings
         }
         else if (t == "n")
         {
@@ -417,6 +418,18 @@ static std::string dispatch_more(const std::string& op, std::istringstream& is)
     if (op == "g_rep") return run_game(is, obs_rep);
     if (op == "walk") return op_walk(is);
     if (op == "walkx") return op_walk_gen(is, obs_full);
+    // the public observers after EVERY step of a make / unmake / null-move script on ONE Position object (stale caches, lazily
+    // updated members): compared with the model's value for the position reached
+    if (op == "walk_preds") return op_walk_gen(is, obs_preds);
+    if (op == "walk_preds_do") return op_walk_gen(is, obs_preds, true);
+    if (op == "walk_all_do") return op_walk_gen(is, [](Position& p) { return obs_legal(p) + " S " + obs_san(p) + " C " + obs_classify(p) + " P " + obs_preds(p); }, true);
+    if (op == "walk_san") return op_walk_gen(is, obs_san);
+    if (op == "walk_legal") return op_walk_gen(is, obs_legal);
+    if (op == "walk_classify") return op_walk_gen(is, obs_classify);
+    if (op == "walk_san_do") return op_walk_gen(is, obs_san, true);
+    if (op == "walk_legal_do") return op_walk_gen(is, obs_legal, true);
+    if (op == "walk_classify_do") return op_walk_gen(is, obs_classify, true);
+    if (op == "walk_all") return op_walk_gen(is, [](Position& p) { return obs_legal(p) + " S " + obs_san(p) + " C " + obs_classify(p) + " F " + p.fen(); });
     if (op == "g_key") return run_game(is, obs_key);
     if (op == "pghash") return op_pghash(is);
     if (op == "kpkraw") return op_kpkraw(is);
